@@ -70,9 +70,13 @@ class SpecEval:
         self.old = old
         self.loop_old = loop_old  # (heap, env) at loop entry
         self.results = results
+        self.head = None        # (heap, env) at the head of the current loop iteration (step clauses)
+        self.bound = {}         # quantifier / let bound names (visible inside old(), lold(), atHead())
 
     def sub(self, **kw):
         e = SpecEval(self.V, self.pkg, self.env, self.heap, self.old, self.loop_old, self.results)
+        e.head = self.head
+        e.bound = self.bound
         for k, v in kw.items():
             setattr(e, k, v)
         return e
@@ -132,7 +136,9 @@ class SpecEval:
             v = self.ev(a[2])
             env2 = dict(self.env)
             env2[a[1]] = v
-            return self.sub(env=env2).ev(a[3])
+            bnd = dict(self.bound)
+            bnd[a[1]] = v
+            return self.sub(env=env2, bound=bnd).ev(a[3])
         if k == 'call':
             return self.call(a[1], a[2])
         raise SpecError('cannot evaluate %r' % (a,))
@@ -248,7 +254,10 @@ class SpecEval:
             c = z3.Const('q_' + n, self.w.sort(ty))
             vs.append(c)
             env2[n] = SV(c, ty)
-        ev2 = self.sub(env=env2)
+        bnd = dict(self.bound)
+        for (n, t) in binders:
+            bnd[n] = env2[n]
+        ev2 = self.sub(env=env2, bound=bnd)
         b = ev2.boolean(body)
         pats = []
         for tr in trig:
@@ -270,6 +279,15 @@ class SpecEval:
             if self.loop_old is None:
                 raise SpecError('lold() outside loop')
             h, env = self.loop_old
+            env = dict(env)
+            env.update(self.bound)
+            return self.sub(heap=h, env=env).ev(args[0])
+        if name == 'atHead':
+            if self.head is None:
+                raise SpecError('atHead() outside a step clause')
+            h, env = self.head
+            env = dict(env)
+            env.update(self.bound)
             return self.sub(heap=h, env=env).ev(args[0])
         if name == 'len':
             v = self.ev(args[0])
@@ -335,7 +353,8 @@ class SpecEval:
             for key in list(self.V.h0.keys()) + list(self.heap.d.keys()):
                 if key[0] == 'ghost' and key[1] == nm:
                     return SV(self.heap.get(key), 'ghost')
-            raise SpecError('unknown ghost ' + nm)
+            # integer-valued ghost variables need no declaration
+            return SV(self.heap.get(('ghost', nm, z3.IntSort())), 'int')
         if name == 'cast':
             ty = resolve_type(w, self.type_from_ast(args[1]), self.pkg)
             return SV(self.ev(args[0]).t, ty)
